@@ -291,6 +291,7 @@ props["C13"] = {
         run("root", "VxC13Idle", {}, {}),
         run("root", "VxC13Busy", {}, {}),
         run("root", "VxC02Snapshot", {}, {}, note="a failed snapshot attempt leaves the checkpoint lock free (shared with C02)"),
+        run("root", "VxC13IdleFile", {"ONEPS": 1}, {}, note="idle sync with a stale tail in the WAL file: the size the decision is made on is the synced size"),
         run("root", "VxC13Rounds", {"ONEPS": 1}, {}, note="the real syncLocked over a burst round (checkpoint possibly refused) and an idle round: a skipped checkpoint is retried"),
     ],
     "assumptions": [
@@ -452,6 +453,7 @@ rewrites = [
     {"file": "db.go", "from": "func (db *DB) verifyAndSyncWithExecutor(", "to": "func (db *DB) verifyAndSyncWithExecutorReal("},
     {"file": "db.go", "from": "func (db *DB) sync(", "to": "func (db *DB) syncReal("},
     {"file": "db.go", "from": "func (db *DB) lockExec(", "to": "func (db *DB) lockExecReal("},
+    {"file": "db.go", "from": "func (db *DB) verifyWithExecutor(", "to": "func (db *DB) verifyWithExecutorReal("},
 ]
 
 def write_manifest():
